@@ -230,7 +230,12 @@ class ResendRule(BaseRule):
             s.ts["filepos_args"] = (tuple(sorted(b.tags)), tuple(sorted(a.tags)))
             return [Out("normal", s, AV("unk", tags=frozenset({"filepos"} | {"prev:" + x for x in a.tags}), sym="body_pos"))]
         if t in ("to_str", "_encode_target"):
-            a = pos[0] if pos else UNK
+            a = pos[0] if pos else next(iter(kw.values()), UNK) if len(kw) >= 1 and not pos else UNK
+            if not pos and kw:
+                q0 = it.resolve_callee(node, recv)
+                fi0 = it.m.func(q0) if q0 else None
+                first = fi0.params()[0] if fi0 and fi0.params() else None
+                a = kw.get(first, a) if first else a
             return ret(AV("unk", tags=frozenset(a.tags | {t}), truth=a.truth, none=False))
         if t == "self.is_same_host":
             a = pos[0] if pos else kw.get("url", UNK)
